@@ -50,6 +50,7 @@ MU_DEF = ["VP_ABSTRACT_QUEUE", "VP_RG_MU"]
 RG = ["rg/vp_rg.c", "rg/vp_stubs.c"]
 GSTEP = ["vp_g.hold", "vp_g.spin", "vp_g.waited", "vp_g.dead", "vp_g.set_desig", "vp_g.longw_set", "vp_g.enq_long", "vp_g.enq_count", "vp_g.last_new"]
 GALL = GSTEP + ["vp_g.queued", "vp_g.p_calls", "vp_g.v_calls", "vp_g.cond_evals", "vp_g.last_cond", "vp_g.last_sem_outcome"]
+FWDL = ["vp_fw.nw.waiting", "vp_fw.nw.flags", "vp_fw.remove_count", "vp_fw.cv_mu", "vp_fw.flags", "vp_fw.l_type", "vp_fw.cond.f"]
 HOLDLT = "((l_type == nsync_writer_type_ && vp_g.hold == 2) || (l_type == nsync_reader_type_ && vp_g.hold == 1))"
 MU_ASSUMED = ["rely/guarantee soundness (paper argument): L-J + F-f for all f  ==>  J holds in every reachable state of every interleaving; atomic steps indivisible and sequentially consistent",
               "fewer than 2^24-1 threads hold or request one mutex (reader-count width)",
@@ -67,7 +68,7 @@ L_LOCK_SLOW = {"nsync_mu_lock_slow_": [
                     "long_wait == 0 || long_wait == 64u",
                     "(vp_tag_C14_escalate != 0 || wait_count < 30u || long_wait == 64u)",
                     "vp_g.enq_count == wait_count"],
-     "assigns": GALL + ["vp_fw", "mu->word", "mu->waiters", "w->nw.waiting", "clear", "long_wait", "wait_count", "zero_to_acquire", "attempts"]},
+     "assigns": GALL + FWDL + ["mu->word", "mu->waiters", "w->nw.waiting", "clear", "long_wait", "wait_count", "zero_to_acquire", "attempts"]},
     {"names": ["w", "clear", "wait_count"],
      "invariants": ["vp_g.hold == 0 && vp_g.spin == 0 && vp_g.dead == 0", "vp_g.queued == 1",
                     "(clear == 0 && vp_g.waited == 0) || (clear == 8u && vp_g.waited != 0)", "vp_g.enq_count == wait_count + 1u"],
@@ -90,7 +91,7 @@ L_MU_WAIT = {"nsync_mu_wait_with_deadline": [
                     "outcome == 0 || outcome == 110 || outcome == 125",
                     "(vp_tag_C05_reason != 0 || outcome == 0 || outcome == vp_g.last_sem_outcome)",
                     "(vp_tag_C05_reason != 0 || (condition_is_true != 0) == (condition == 0 || vp_g.last_cond != 0))"],
-     "assigns": GALL + ["vp_fw", "vp_my_w", "vp_reg.my_waiting", "mu->word", "mu->waiters", "w", "outcome", "condition_is_true", "first_wait", "old_word"]},
+     "assigns": GALL + FWDL + ["vp_my_w", "vp_reg.my_waiting", "mu->word", "mu->waiters", "w", "outcome", "condition_is_true", "first_wait", "old_word"]},
     {"names": ["mu", "l_type", "old_word", "add_to_acquire", "had_waiters"],
      "invariants": ["vp_g.spin == 1 && vp_g.dead == 0 && vp_g.waited == 0 && vp_g.queued == 1", HOLDLT, "vp_g.hold == __CPROVER_loop_entry(vp_g.hold)"],
      "assigns": GSTEP + ["mu->word", "old_word", "add_to_acquire"]},
@@ -101,7 +102,7 @@ L_MU_WAIT = {"nsync_mu_wait_with_deadline": [
                     "sem_outcome == 0 || sem_outcome == 110 || sem_outcome == 125",
                     "(vp_tag_C05_reason != 0 || sem_outcome == 0 || sem_outcome == vp_g.last_sem_outcome)",
                     "(vp_tag_C05_reason != 0 || outcome == 0 || (have_lock == 1 && outcome == sem_outcome))"],
-     "assigns": GALL + ["vp_fw", "vp_my_w.nw.waiting", "vp_my_w.remove_count", "mu->word", "mu->waiters", "sem_outcome", "have_lock", "outcome", "attempts"]}]}
+     "assigns": GALL + FWDL + ["vp_my_w.nw.waiting", "vp_my_w.remove_count", "mu->word", "mu->waiters", "sem_outcome", "have_lock", "outcome", "attempts"]}]}
 
 SLOW = ["nsync_mu_lock_slow_", "nsync_waiter_new_", "nsync_waiter_free_"]
 
@@ -182,3 +183,62 @@ def once_groups(tags=None):
             G("once.public_entry_points", None, "h_once_public", ["nsync_run_once_impl"], None, min_obligations=50,
               functions=["nsync_run_once", "nsync_run_once_arg", "nsync_run_once_spin", "nsync_run_once_arg_spin"]),
             G("once.lemma_single_claimant", None, "h_once_lemma", [], None, no_dfcc=True, kind="lemma", min_obligations=1)]
+
+
+# ---------------------------------------------------------------- counter
+CNT_S = ["harness/cnt/counter_all.c", "rg/vp_rg.c", "rg/vp_cnt.c", "rg/vp_amu.c", "rg/vp_stubs.c", "repo:platform/posix/src/time_rep.c"]
+CNT_DEF = ["VP_RG_CNT", "VP_RG_WAKER", "VP_WK_LOCKED", "VP_ABSTRACT_MU", "VP_ABSTRACT_QUEUE"]
+CF = ["vp_c.cas_count", "vp_c.cas_old", "vp_c.cas_new", "vp_c.load_valid", "vp_c.last_load", "vp_c.last_load_acq", "vp_c.raising_from_zero"]
+WKF = ["vp_wk.cleared", "vp_wk.posted", "vp_wk.pending", "vp_wk.last_cleared"]
+L_CNT_ADD = {"nsync_counter_add": [
+    {"names": ["c", "value"],
+     "invariants": ["vp_amu.held[0] == 1 && vp_c.cas_count == 0 && vp_wk.pending == 0",
+                    "vp_wk.cleared == __CPROVER_loop_entry(vp_wk.cleared) && c->waiters == __CPROVER_loop_entry(c->waiters)"],
+     "assigns": CF + ["c->value", "value"]},
+    {"names": ["c", "p"],
+     "invariants": ["vp_amu.held[0] == 1 && vp_wk.pending == 0", "(vp_tag_C10_cnt != 0 || vp_wk.cleared == vp_wk.posted)",
+                    "c->waiters == 0 || c->waiters == &vp_fw.nw.q", "vp_c.cas_count == 1"],
+     "assigns": WKF + FWDL + ["c->waiters", "p", "vp_g.v_calls"]}]}
+CNT_ASSUMED = ["nsync_mu_lock/unlock on counter_mu obey the ghost contract of the mutex (rg/vp_amu.c; proved under C01)",
+               "client preconditions of nsync_counter.h: the add does not overflow; the count is not raised from zero after a wait was issued",
+               "abstract waiter queue (rg/vp_stubs.c) in the release loop: every record has arbitrary contents; exact list behaviour is C17",
+               "linearizability across threads follows from mutex exclusion (C01): stated, not re-proved",
+               "rely/guarantee soundness (paper argument)"]
+
+
+def cnt_groups(tags=None, which=None):
+    def G(name, fn, entry, rep=(), loops=None, **kw):
+        return Group(name=name, srcs=CNT_S, entry=entry, enforce=fn, replace=list(rep), loops=loops, timeout=600, unwind=100,
+                     defines=CNT_DEF, tags=tags, assumed=CNT_ASSUMED, replay="rg", min_obligations=kw.pop("min_obligations", 80), **kw)
+    gs = [G("counter.add", "nsync_counter_add", "h_counter_add", loops=L_CNT_ADD),
+          G("counter.value", "nsync_counter_value", "h_counter_value"),
+          G("counter.ready_time", "counter_ready_time", "h_counter_ready_time"),
+          G("counter.enqueue", "counter_enqueue", "h_counter_enqueue"),
+          G("counter.dequeue", "counter_dequeue", "h_counter_dequeue"),
+          G("counter.wait", "nsync_counter_wait", "h_counter_wait", rep=["nsync_wait_n"]),
+          G("counter.new", "nsync_counter_new", "h_counter_new", malloc_may_fail=True)]
+    if which is not None:
+        gs = [g for g in gs if g.name in which]
+    return gs
+
+
+# ---------------------------------------------------------------- nsync_wait_n against the waitable interface
+WAIT_S = ["harness/wait/wait_all.c", "rg/vp_rg.c", "rg/vp_stubs.c", "repo:internal/dll.c", "repo:platform/posix/src/time_rep.c"]
+L_WAIT = {"nsync_wait_n": [
+    {"names": ["count", "min_ntime", "j", "nw", "w", "abs_deadline", "enqueued", "i", "unlocked", "ready"],
+     "invariants": ["i == count && ready == count && vp_w.n_enq == count && vp_w.n_deq == 0 && vp_w.lock_calls == 0",
+                    "unlocked == vp_w.unlock_calls && unlocked == (vp_w.the_mu != 0 ? 1 : 0)", "w == &the_waiter"],
+     "assigns": ["min_ntime", "j", "vp_w.round_next", "vp_w.round_complete", "vp_w.round_min", "vp_w.round_any_ready", "vp_w.p_calls",
+                 "vp_w.timed_out", "vp_w.timeout_at", "vp_w.ready_reached", "vp_w.last_rt"]}]}
+WAIT_ASSUMED = ["interface contract of struct nsync_waitable_funcs_s (public/nsync_waiter.h:131-147) as stub waitables with arbitrary answers: an object that is "
+                "ready stays ready (ready_time 0, dequeue reports 'not queued'); an object whose announced ready time was reached is ready",
+                "timed semaphore wait: 0, or ETIMEDOUT only once the clock has reached the given deadline (C12)",
+                "malloc of the bookkeeping array (count > 4) succeeds: wait.c does not check it (unchecked allocation, outside C19's statement)",
+                "count <= 6 (array size of the harness; covers the on-stack (<= 4) and heap (> 4) bookkeeping paths); the loops over the objects are "
+                "unwound statically with unwinding assertions (complete for count <= 6), the sleep loop is closed by a loop contract (any number of wake-ups)"]
+
+
+def wait_groups(tags=None):
+    return [Group(name="wait.wait_n", srcs=WAIT_S, entry="h_wait_n", enforce="nsync_wait_n", loops=L_WAIT, timeout=900, unwind=30,
+                  pre_unwind={"nsync_wait_n": ([0, 1, 2, 4], 8)}, unwind_fn={"h_wait_n": 8}, defines=["VP_REAL_SEM", "VP_MAXC=6"], object_bits=10,
+                  tags=tags, assumed=WAIT_ASSUMED, min_obligations=500)]
